@@ -240,13 +240,7 @@ exec_c10(const vcase *vc)
 	case 1:
 		snprintf(buf, sizeof buf, "ipc:///tmp/verif-c10-%d.sock", (int) getpid());
 		break;
-	default: {
-		// pick a free port
-		int lfd = rp_listen_tcp(&tcp_port);
-		close(lfd);
-		snprintf(buf, sizeof buf, "tcp://127.0.0.1:%d", tcp_port);
-		break;
-	}
+	default: snprintf(buf, sizeof buf, "tcp://127.0.0.1:0"); break;
 	}
 	W.url = buf;
 	if (nng_listen(W.s, W.url.c_str(), &W.lis, 0) != 0) {
@@ -256,6 +250,11 @@ exec_c10(const vcase *vc)
 		return 0;
 	}
 	W.have_lis = true;
+	if (tr == 2) {
+		H_OK(nng_listener_get_int(W.lis, NNG_OPT_BOUND_PORT, &tcp_port));
+		snprintf(buf, sizeof buf, "tcp://127.0.0.1:%d", tcp_port);
+		W.url = buf;
+	}
 	W.listeners.push_back(W.lis);
 	if (W.P->open == nng_sub0_open)
 		nng_sub0_socket_subscribe(W.s, "", 0);
